@@ -27,8 +27,9 @@ def make(rng, funcs):
     consts = [("K_1", "define", rng.choice([0, 1, -1, 2 ** 31 - 1, -2 ** 31, 2 ** 32 - 1, rng.randint(-10 ** 6, 10 ** 6)])),
               ("K_2", "static const long long", rng.choice([2 ** 63 - 1, -2 ** 63, rng.randint(-2 ** 62, 2 ** 62)])),
               ("K_3", "enum", rng.randint(-1000, 1000)), ("K_4", "enum", rng.choice([0, 2 ** 31 - 1, -2 ** 31])),
-              ("K_5", "define", rng.choice([2 ** 63 - 1, 2 ** 64 - 1, -2 ** 63, 2 ** 40])),
-              ("K_6", "static const int", rng.randint(-2 ** 31, 2 ** 31 - 1))]
+              ("K_5", "define", 2 ** 64 - 1), ("K_6", "static const int", rng.randint(-2 ** 31, 2 ** 31 - 1)),
+              ("K_7", "define", -2 ** 63), ("K_8", "define", 2 ** 63), ("K_9", "define", 2 ** 63 - 1),
+              ("K_10", "static const unsigned long long", rng.choice([2 ** 64 - 1, 2 ** 63, rng.randint(0, 2 ** 64 - 1)]))]
     pt = rng.choice(list(G.INTS))
     return {"globals": globs, "consts": consts, "ptype": pt, "funcs": funcs}
 
